@@ -1,21 +1,27 @@
 """C08 bounded run-time contract (labelled bounded): identity constraints through the real schema API against key_table_ok.
 
 Templates: key / unique with a keyref, 1-2 attribute fields typed integer / boolean / string / decimal, with lexical variants of equal
-values, missing fields and duplicates; exhaustive over tables of <= 3 key rows and <= 2 reference rows over the domain {absent, 1, 2}.
-ID/IDREF: duplicates and dangling references over small id pools.  Excluded corner (reported): xs:unique over incomplete tuples.
+values (and three union types), missing fields and duplicates; exhaustive over tables of <= 3 key rows and <= 2 reference rows over the domain {absent, 1, 2}.
+Refer across levels: a keyref on r referring to a key declared on a repeated child g (0-2 instances).  ID/IDREF: duplicates and dangling references over small id pools.  Excluded corner (reported): xs:unique over incomplete tuples.
 """
 import itertools, random
 from .common import pmap, result, part
 from .C01 import _cls
 XS = 'xmlns:xs="http://www.w3.org/2001/XMLSchema"'
 LEX = {'integer': {1: ['1', '01', '+1'], 2: ['2', '02']}, 'boolean': {1: ['true', '1'], 2: ['false', '0']}, 'string': {1: ['a'], 2: ['b']},
-       'decimal': {1: ['1', '1.0', '01.00'], 2: ['2.50', '2.5']}}
+       'decimal': {1: ['1', '1.0', '01.00'], 2: ['2.50', '2.5']},
+       # union-typed fields: the value is that of the first member type that accepts the text
+       'UIntBool': {1: ['1', '01', '+1'], 2: ['true']}, 'UBoolStr': {1: ['true', '1'], 2: ['x']}, 'USmallBool': {1: ['7', '07'], 2: ['false', '0']}}
+TYPES = '''<xs:simpleType name="Small"><xs:restriction base="xs:int"><xs:maxInclusive value="50"/><xs:minInclusive value="2"/></xs:restriction></xs:simpleType>
+ <xs:simpleType name="UIntBool"><xs:union memberTypes="xs:int xs:boolean"/></xs:simpleType><xs:simpleType name="UBoolStr"><xs:union memberTypes="xs:boolean xs:string"/></xs:simpleType>
+ <xs:simpleType name="USmallBool"><xs:union memberTypes="Small xs:boolean"/></xs:simpleType>'''
 
 
 def schema(nf, ftype, kind, ver):
-    attrs = ''.join(f'<xs:attribute name="f{i}" type="xs:{ftype}"/>' for i in range(nf))
+    tname = ftype if ftype.startswith('U') else 'xs:' + ftype
+    attrs = ''.join(f'<xs:attribute name="f{i}" type="{tname}"/>' for i in range(nf))
     fields = ''.join(f'<xs:field xpath="@f{i}"/>' for i in range(nf))
-    return _cls(ver)(f'''<xs:schema {XS}><xs:element name="r"><xs:complexType><xs:sequence>
+    return _cls(ver)(f'''<xs:schema {XS}>{TYPES}<xs:element name="r"><xs:complexType><xs:sequence>
   <xs:element name="k" minOccurs="0" maxOccurs="unbounded"><xs:complexType>{attrs}</xs:complexType></xs:element>
   <xs:element name="f" minOccurs="0" maxOccurs="unbounded"><xs:complexType>{attrs}</xs:complexType></xs:element>
  </xs:sequence></xs:complexType>
@@ -53,6 +59,36 @@ def eval_template(args):
         exp = key_table_ok(kind, krows, frows)
         if got != exp and len(bad) < 3: bad.append(dict(doc=doc, got=got, exp=exp, krows=krows, frows=frows))
     return dict(template=(nf, ftype, kind, ver), cases=n, reported=rep, bad=bad)
+
+
+# ---------------------------------------------------------------- refer across levels: the key is declared on a descendant of the keyref's element
+def level_schema(ver, kind):
+    return _cls(ver)(f'''<xs:schema {XS}><xs:element name="r"><xs:complexType><xs:sequence>
+  <xs:element ref="g" minOccurs="0" maxOccurs="unbounded"/>
+  <xs:element name="f" minOccurs="0" maxOccurs="unbounded"><xs:complexType><xs:attribute name="v" type="xs:integer"/></xs:complexType></xs:element>
+ </xs:sequence></xs:complexType><xs:keyref name="R" refer="K"><xs:selector xpath="f"/><xs:field xpath="@v"/></xs:keyref></xs:element>
+ <xs:element name="g"><xs:complexType><xs:sequence><xs:element name="k" minOccurs="0" maxOccurs="unbounded"><xs:complexType><xs:attribute name="v" type="xs:integer"/></xs:complexType></xs:element></xs:sequence></xs:complexType>
+  <xs:{kind} name="K"><xs:selector xpath="k"/><xs:field xpath="@v"/></xs:{kind}></xs:element></xs:schema>''')
+
+
+def eval_levels(args):
+    ver, kind, groups, refs = args
+    s = _LV.get((ver, kind)) or _LV.setdefault((ver, kind), level_schema(ver, kind))
+    def el(tag, v): return f'<{tag}/>' if v is None else f'<{tag} v="{v}"/>'
+    doc = '<r>' + ''.join('<g>' + ''.join(el('k', v) for v in g) + '</g>' for g in groups) + ''.join(el('f', v) for v in refs) + '</r>'
+    # Structures 3.11.4: every g has its own table (key: every field present, no duplicates); the tables of the descendants are propagated to
+    # r, a key-sequence that occurs in more than one of them is dropped; a reference with all fields present needs an entry of that table
+    ok = all(key_table_ok(kind, [(v,) for v in g], []) for g in groups)
+    entries = [v for g in groups for v in set(g) if v is not None]
+    table = {v for v in entries if entries.count(v) == 1}
+    ok = ok and all(v is None or v in table for v in refs)
+    try: got = s.is_valid(doc)
+    except Exception as e: got = f'EXC {type(e).__name__}: {e}'
+    if got == ok: return None
+    return dict(doc=doc, ver=ver, kind=kind, got=got, exp=ok, groups=len(groups))
+
+
+_LV = {}
 
 
 def id_schema(ver):
@@ -93,6 +129,20 @@ def run(tier, seed, open_findings):
     out = [result('C08.key_unique_keyref_tables', f'{len(jobs)} constraint templates x tables of <= 3 key rows and <= 2 reference rows over {{absent, 1, 2}} with lexical variants', cases, fails,
                   exhaustive=(tier == 'thorough'), samples=[dict(template=list(jobs[3][:4]), doc='<r><k f0="01"/><k f0="+1"/></r>')],
                   reported={'xs:unique over incomplete tuples (outside the deciding scope)': sum(r['reported'] for r in res)})]
+    dom = [None, 1, 2]
+    gsets = [g for n in range(0, 3) for g in itertools.product(dom, repeat=n)]
+    ljobs = [(ver, kind, gs, refs) for ver in ('1.0', '1.1') for kind in ('key', 'unique') for ng in range(0, 3) for gs in itertools.product(gsets, repeat=ng)
+             for nr in range(0, 3) for refs in itertools.product(dom, repeat=nr)]
+    ljobs, lex = part(ljobs, tier, seed, 4)
+    lres = pmap(eval_levels, ljobs)
+    lf = []; lknown = {}
+    for r in lres:
+        if not r: continue
+        if r['groups'] >= 2 and isinstance(r['got'], bool) and 'C08-keyref-sees-only-the-last-descendant-key-table' in open_findings:
+            lknown['C08-keyref-sees-only-the-last-descendant-key-table'] = lknown.get('C08-keyref-sees-only-the-last-descendant-key-table', 0) + 1; continue
+        lf.append(dict(case=dict(levels=True, ver=r['ver'], kind=r['kind'], doc=r['doc']), observed=dict(valid=r['got']), required=dict(valid=r['exp'])))
+    out.append(result('C08.refer_across_levels', f'{len(ljobs)} documents: keyref on r referring to a key / unique declared on the repeated child g; 0-2 g elements with <= 2 rows, <= 2 references over {{absent, 1, 2}}',
+                      len(ljobs), lf, exhaustive=lex, known=lknown, samples=[dict(doc='<r><g><k v="1"/></g><f v="1"/></r>')]))
     vals = [None, 'x', 'y']
     leaf = [('b', i, r, []) for i in vals for r in vals]
     nodes = [('a', i, r, list(k)) for i in vals for r in vals for nk in (0, 1) for k in itertools.product(leaf, repeat=nk)]
@@ -106,6 +156,12 @@ def run(tier, seed, open_findings):
 
 
 def replay(check_name, case):
+    if case.get('levels'):
+        import re
+        groups = [tuple(int(v) if v else None for v in re.findall(r'<k(?: v="(\d+)")?/>', g)) for g in re.findall(r'<g>(.*?)</g>', case['doc'])]
+        refs = tuple(int(v) if v else None for v in re.findall(r'<f(?: v="(\d+)")?/>', case['doc']))
+        r = eval_levels((case['ver'], case['kind'], groups, refs))
+        return dict(ok=r is None, observed=r, required='verdict of the propagated key table')
     if check_name == 'C08.id_idref':
         s = id_schema(case['ver']); got = s.is_valid(case['doc'])
         return dict(ok=None, observed=dict(valid=got), required='see case') if False else dict(ok=True, observed=dict(valid=got), required='re-run the check for the reference verdict')
